@@ -73,6 +73,30 @@ THEOREMS = [
         "C02_keeps_values",
         "C02_node_alone",
         "C02_function_alone",
+        # deepening round: the widened WFproto (Model/SerdeWide.lean)
+        "C02_fold_unread_graph",
+        "C02_fold_unread_function",
+        "C02_fold_unread",
+        "C02_fold_value_info",
+        "C02_fold_external",
+        "C02_model_wide",
+        "C02_model_norm_wide",
+        "C02_graph_wide",
+        "C02_function_alone_wide",
+        "C02_tensor_wide",
+        "C02_wide_subsumes",
+        "C02_keeps_wide",
+        "C02_tensor_fields",
+        # stage E: merge (E3), canon = merge . fold
+        "C02_merge_deserialize_graph",
+        "C02_merge_deserialize",
+        "C02_merge_output",
+        "C02_model_canon",
+        "C02_model_norm_canon",
+        "C02_graph_canon",
+        "C02_function_alone_canon",
+        "C02_canon_subsumes",
+        "C02_keeps_canon",
     )
 ]
 ASSUMPTIONS = [
@@ -90,12 +114,29 @@ ASSUMPTIONS = [
     "completed from its tensor where it says nothing (fillFromTensor: type, leaf shape); value_info is added for "
     "every non-input initializer; value_info that addresses no value of the graph or carries no information is "
     "dropped; external_data entries are written in the order location/offset/length/checksum (py_norm sorts them)",
-    "edge stream = supported protos outside WFproto in which the same thing is described twice (value_info for a "
-    "graph input / output, several output entries with one name, repeated opset domain, duplicate value_info, "
-    "extra external_data keys): oracle with the explicit list EXPECTED_NORMALISATIONS (E1-E7) + correspondence, no theorem",
-    "true by construction of the model and NOT claimed as theorems: dimension, scalar attribute and proto-backed "
-    "tensor round trips (bytes payloads are opaque tokens, a proto-backed tensor keeps its TensorProto); "
-    "float32<->double conversion and UTF-8 decoding live in the trusted renderer of this harness",
+    "edge stream = supported protos outside WFproto in which the same thing is described twice.  Inside the widened "
+    "theorems (WFprotoW p := WFproto (fold p), C02_*_wide; histogram wfw[edge]=...): E2 value_info naming a graph "
+    "input, E5 repeated opset domain, E6 repeated value_info name (graphs and functions), E7 external_data with "
+    "unspecified or repeated keys - fold drops exactly the entries deserialize never reads (C02_fold_unread*).  "
+    "Inside the second widening (WFprotoX p := WFproto (merge (fold p)), C02_*_canon; histogram wfx[edge]=...): "
+    "additionally E3 value_info naming a graph output produced in the graph - its metadata is united into the output "
+    "entry (C02_merge_output: the mergeVI normalisation), C02_merge_deserialize* under WFproto (merge p).  "
+    "Still oracle (EXPECTED_NORMALISATIONS) + correspondence only: E4 several output entries with one name (the proofs "
+    "of the graph theorem rest on distinct output names) and its combinations; value_info naming an output nobody "
+    "produces; IR<10 models whose own graph values have names of the experimental form",
+    "the hypotheses of the new theorems are evaluated by the driver on every case (wfw / wfx, thmw / thmx = statements "
+    "of C02_*_wide / C02_*_canon, sub / subx = C02_wide_subsumes / C02_canon_subsumes, unread = C02_fold_unread* "
+    "observed through serialize, fields = C02_tensor_fields); a false instance is a disagreement",
+    "tensors: serTensorF = serialize_tensor_into written out per tensor class and per field (CopyFrom as Clear + "
+    "MergeFrom with the presence convention unset == default) is compared with the real to_proto on every tensor "
+    "case; C02_tensor_fields claims every field incl. the payload in the storage field it came in, for all three "
+    "classes.  Still by construction of the rendering, NOT theorems: dimension and scalar attribute round trips, "
+    "bytes payloads as opaque tokens; float32<->double conversion and UTF-8 decoding live in the trusted renderer",
+    "unsupported constructs (outside the property's quantifier), observed on every run by the 'unsupported' stream "
+    "(histogram only, never a failure): SPARSE_TENSOR(S) attributes and map types raise NotImplementedError; "
+    "GraphProto.sparse_initializer, ModelProto.training_info and TypeProto.opaque_type are DROPPED SILENTLY by "
+    "from_proto/to_proto (observations D370-D372, proposed_fixes/D370-D372.md); TensorProto.segment is kept by the "
+    "proto-backed pass-through",
     "the file entry points onnx_ir.load / onnx_ir.save are compared with from_proto / to_proto on every model case "
     "(differential only; external tensor data is never touched)",
     "WFproto (theorem domain) vs the generator's valid stream: see histogram keys wf[valid]=...; outside WFproto "
@@ -612,7 +653,8 @@ def _norm_function(f):
     names = set(f.input)
     for n in f.node:
         names |= {o for o in n.output if o}
-    vis = sorted((copy.deepcopy(v) for v in f.value_info if v.name in names and _vi_has_info(v)), key=lambda v: v.name)
+    last = {v.name: v for v in f.value_info}  # E6: the last entry of a name counts
+    vis = sorted((copy.deepcopy(v) for v in last.values() if v.name in names and _vi_has_info(v)), key=lambda v: v.name)
     for v in vis:
         _norm_vi(v)
     del f.value_info[:]
@@ -1447,16 +1489,53 @@ def _graphs_of(x):
                 yield from _graphs_of(g)
 
 
+def edge_external(rng, t):
+    """E7 on one external tensor: an unspecified key, or a repeated specified key (the last entry counts)."""
+    if rng.random() < 0.5:
+        e = t.external_data.add(key=rng.choice(["basepath", "foo"]), value="/x")
+        if rng.random() < 0.5:  # not at the end
+            es = [(x.key, x.value) for x in t.external_data]
+            rng.shuffle(es)
+            del t.external_data[:]
+            for k, v in es:
+                t.external_data.add(key=k, value=v)
+        return "E7:extra-external-key"
+    k = rng.choice(["location", "offset", "length", "checksum"])
+    v = {"location": "other.bin", "offset": str(rng.choice([0, 8, 4096])), "length": str(rng.choice([0, 16])),
+         "checksum": "abc"}[k]
+    if rng.random() < 0.5:
+        t.external_data.add(key=k, value=v)
+    else:
+        es = [(k, v)] + [(x.key, x.value) for x in t.external_data]
+        del t.external_data[:]
+        for kk, vv in es:
+            t.external_data.add(key=kk, value=vv)
+    return "E7:repeated-external-key"
+
+
 def edge(rng, kind, p):
     """Supported protos outside WFproto: the same thing described twice.  The oracle runs on them with
     EXPECTED_NORMALISATIONS (E2..E7); correspondence as everywhere."""
     p = copy.deepcopy(p)
     gen = Gen(rng)
     what = []
+    if kind == "tensor":
+        if p.data_location == TensorProto.EXTERNAL:
+            for _ in range(rng.choice([1, 1, 2])):
+                what.append(edge_external(rng, p))
+        return p, what
     gs = list(_graphs_of(p))
+    fs = (list(p.functions) if isinstance(p, ModelProto) else []) + ([p] if isinstance(p, FunctionProto) else [])
     for _ in range(rng.choice([1, 1, 2])):
-        c = rng.randrange(7)
+        c = rng.randrange(8)
         g = rng.choice(gs) if gs else None
+        if c == 7:
+            fs_vi = [f for f in fs if len(f.value_info)]
+            if fs_vi:
+                f = rng.choice(fs_vi)
+                gen.vi(f.value_info.add(), rng.choice(list(f.value_info)).name)
+                what.append("E6:duplicate-function-value-info")
+            continue
         if c == 0 and g is not None and g.input:
             gen.vi(g.value_info.add(), rng.choice(list(g.input)).name)
             what.append("E2:value-info-for-input")
@@ -1487,10 +1566,9 @@ def edge(rng, kind, p):
             what.append("E6:duplicate-value-info")
         elif c == 5:
             ts = [t for g_ in gs for t in g_.initializer if t.data_location == TensorProto.EXTERNAL]
+            ts += [a.t for n in _all_nodes(p) for a in n.attribute if a.HasField("t") and a.t.data_location == TensorProto.EXTERNAL]
             if ts:
-                t = rng.choice(ts)
-                t.external_data.add(key=rng.choice(["basepath", "foo"]), value="/x")
-                what.append("E7:extra-external-key")
+                what.append(edge_external(rng, rng.choice(ts)))
         elif c == 6 and g is not None and g.input and g.output:
             # E1 together with E4 / E2: a pass-through with two output entries or a value_info entry
             src = rng.choice(list(g.input))
@@ -1603,6 +1681,29 @@ def run_cases(ctx: Ctx, cases):
             if not out["thm"]:
                 ctx.disagree(f"serde.{kind}: theorem instance false in the model: WFproto x but serialize(deserialize x) != norm x", rec,
                              {"r": out["r"], "norm": out["norm"]}, None)
+            if "wfw" in out:
+                # the widened domain (C02_*_wide), its relation to the old one, and what the fold leaves unread
+                ctx.count(f"wfw[{stream}]={out['wfw']}")
+                if out["wfw"] and not out["wf"]:
+                    ctx.count(f"wfw-only[{stream}:{kind}]")
+                ctx.count(f"wfx[{stream}]={out['wfx']}")
+                if out["wfx"] and not out["wfw"]:
+                    ctx.count(f"wfx-only[{stream}:{kind}]")
+                for flag, thm in (("thmw", f"C02_{kind}_wide: WFproto (fold x) but serialize(deserialize x) != norm (fold x)"),
+                                  ("thmx", f"C02_{kind}_canon: WFproto (canon x) but serialize(deserialize x) != norm (canon x)"),
+                                  ("subx", "C02_canon_subsumes: WFproto (fold x) but merge changes norm"),
+                                  ("sub", "C02_wide_subsumes: WFproto x but fold x changes norm"),
+                                  ("unread", "C02_fold_unread: deserialize (fold x) != deserialize x (seen through serialize)")):
+                    if not out[flag]:
+                        ctx.disagree(f"serde.{kind}: theorem instance false in the model: {thm}", rec,
+                                     {"r": out["r"], "normw": out["normw"]}, None)
+            if kind == "tensor":
+                if not out["fields"]:
+                    ctx.disagree("serde.tensor: theorem instance false in the model: C02_tensor_fields", rec,
+                                 {"rf": out["rf"]}, None)
+                # serTensorF (serialize_tensor_into field by field) against the real to_proto
+                if impl["ok"] and out["ok"] and out["rf"] != impl["r"]:
+                    ctx.disagree("serde.tensor: field-by-field model serTensorF != implementation", rec, {"rf": out["rf"]}, impl)
         # ---- oracle: the property itself, on the real objects
         known_sig = None
         if stream in ("valid", "corpus", "edge"):
@@ -1643,11 +1744,70 @@ def run_cases(ctx: Ctx, cases):
                              {"ok": out["ok"], "err": out["err"], "r": out["r"]}, impl)
 
 
+def run_unsupported(ctx: Ctx) -> None:
+    """Constructs outside the property's quantifier: record what from_proto/to_proto does with each (raises /
+    drops silently / keeps).  Histogram only - never a failure (maintainer decision on D370-D372)."""
+    import onnx_ir as ir
+    from onnx import helper
+
+    def graph():
+        return helper.make_graph([helper.make_node("Add", ["x", "w"], ["y"])], "g",
+                                 [helper.make_tensor_value_info("x", 1, [4])], [helper.make_tensor_value_info("y", 1, [4])])
+
+    def sparse():
+        return helper.make_sparse_tensor(helper.make_tensor("w", 1, [2], [1.0, 2.0]),
+                                         helper.make_tensor("w_idx", 7, [2], [0, 3]), [4])
+
+    def c_sparse_init():
+        g = graph()
+        g.sparse_initializer.append(sparse())
+        return g, lambda a, b: len(b.sparse_initializer) == len(a.sparse_initializer)
+
+    def c_training():
+        m = helper.make_model(graph(), ir_version=10)
+        m.training_info.add().algorithm.name = "alg"
+        return m, lambda a, b: len(b.training_info) == len(a.training_info)
+
+    def c_opaque():
+        v = ValueInfoProto(name="x")
+        v.type.opaque_type.domain, v.type.opaque_type.name = "d", "n"
+        return v, lambda a, b: b.type.WhichOneof("value") == "opaque_type"
+
+    def c_map():
+        v = ValueInfoProto(name="x")
+        v.type.map_type.key_type = 7
+        v.type.map_type.value_type.tensor_type.elem_type = 1
+        return v, lambda a, b: b.type.WhichOneof("value") == "map_type"
+
+    def c_sparse_attr():
+        a = helper.make_attribute("sparse_value", sparse())
+        return a, lambda a_, b: b.HasField("sparse_tensor")
+
+    def c_segment():
+        t = helper.make_tensor("t", 1, [2], [1.0, 2.0])
+        t.segment.begin, t.segment.end = 1, 2
+        return t, lambda a, b: b.HasField("segment") and a == b
+
+    for name, mk in (("sparse_initializer", c_sparse_init), ("training_info", c_training), ("opaque_type", c_opaque),
+                     ("map_type", c_map), ("sparse_attribute", c_sparse_attr), ("tensor_segment", c_segment)):
+        p, kept = mk()
+        try:
+            rt = ir.to_proto(ir.from_proto(p))
+        except Exception as e:  # noqa: BLE001
+            root = e
+            while root.__cause__ is not None:
+                root = root.__cause__
+            ctx.count(f"unsupported-raised={name}:{type(root).__name__}")
+            continue
+        ctx.count(f"unsupported-kept={name}" if kept(p, rt) else f"unsupported-silently-dropped={name}")
+
+
 def run(ctx: Ctx) -> None:
     ctx.rule = (
         "structured random protos per message kind (valid stream: oracle + correspondence; edge stream = supported "
-        "protos outside WFproto: oracle with the expected-normalisation list E1-E7 + correspondence; invalid stream: "
-        "correspondence only) + repo testdata + ONNX backend corpus; distinct by (kind, rendered proto); "
+        "protos outside WFproto: oracle with the expected-normalisation list E1-E7 + correspondence, E2/E5/E6/E7 inside "
+        "the widened theorems; invalid stream: correspondence only; unsupported stream: six fixed protos, histogram only) "
+        "+ repo testdata + ONNX backend corpus; distinct by (kind, rendered proto); "
         "every case is non-trivial (a message with at least one field)"
     )
     # corpus of past findings first
@@ -1673,13 +1833,16 @@ def run(ctx: Ctx) -> None:
                 q, what = mutate(rng, kind, p)
                 if what:
                     cases.append((kind, q, "invalid", "+".join(what)))
-            if kind in ("graph", "function", "model") and rng.random() < 0.4:
+            if kind in ("graph", "function", "model", "tensor") and rng.random() < 0.4:
                 q, what = edge(rng, kind, p)
                 if what:
                     cases.append((kind, q, "edge", "+".join(what)))
+                    for w in what:
+                        ctx.count(f"edge-family={w.split(':')[0]}")
     run_cases(ctx, cases)
     cases = [("model", m, "corpus", name) for name, m in corpus_models(ctx)]
     run_cases(ctx, cases)
+    run_unsupported(ctx)
 
 
 def replay(ctx: Ctx, obj: dict) -> None:
